@@ -10,4 +10,7 @@ RULES = {"C14.a", "C14.b", "C14.c", "C14.d", "C14.e"}
 
 
 def check(ctx):
+    if ctx.tier == "thorough":
+        from . import witness
+        witness.analyze(ctx, "C14.a")
     sharing.analyze(ctx, RULES)
